@@ -1,6 +1,6 @@
 (* Each.parseImpl (Model/Core.v each_impl): which elements it ever hands to `_parse`.
    For every predicate P on grammar nodes that holds of the children of the Each node and is inherited by the body of an
-   Opt / ZeroOrMore / OneOrMore and by `named_copy`, P holds of every element of self.required / self.optionals /
+   Opt and by the operand derived from a ZeroOrMore / OneOrMore (its body, or the named copy of its body), P holds of every element of self.required / self.optionals /
    self.multioptionals, of every member of matchOrder, and these facts are preserved by the bookkeeping of the loop. *)
 From Coq Require Import List ZArith NArith Bool Arith Lia.
 From PP Require Import Model.Str Model.Results Model.Prog Model.Core.
@@ -8,8 +8,8 @@ Import ListNotations.
 
 Section EachFacts.
 Variable P : expr -> Prop.
-Hypothesis P_copy : forall b n, P b -> P (named_copy b n).
-Hypothesis P_rep : forall a i z b ne, P (Rep a i z b ne) -> P b.
+(* the operand of a repetition: its body, or the named copy of its body *)
+Hypothesis P_rep : forall a i z b ne, P (Rep a i z b ne) -> P (snd (rep_operand (Rep a i z b ne) b)).
 Hypothesis P_opt : forall a i dflt b, P (Enh a i (EOpt dflt) b) -> P b.
 
 Definition entsP (l : list each_ent) : Prop := Forall (fun en => P (ee_e en)) l.
@@ -46,8 +46,7 @@ Proof.
   { intros b0. apply entsP_flat_map. intros [c [me [cs co]]] Hz. pose proof (zip_P es info _ Hw Hz) as Hc.
     cbn [fst snd] in *. destruct c as [| | |a0 i0 z0 b ne0| |]; try constructor.
     destruct (b0 && z0); constructor; [|constructor].
-    unfold ee_e, rep_operand. cbn [snd]. pose proof (P_rep _ _ _ _ _ Hc) as Hb.
-    destruct (rsname (attrs_of (Rep a0 i0 z0 b ne0))); cbn [snd]; [apply P_copy|]; exact Hb. }
+    unfold ee_e. cbn [snd]. exact (P_rep _ _ _ _ _ Hc). }
   repeat split; try apply Hm.
   - apply entsP_flat_map. intros [c [me [cs co]]] Hz. pose proof (zip_P es info _ Hw Hz) as Hc. cbn [fst snd] in *.
     destruct (is_opt c || is_rep c); constructor; [exact Hc|constructor].
